@@ -5,7 +5,7 @@ Import ListNotations.
 From GMQ Require Import Base.Bytes Codec.Desc Codec.Prim Codec.Value Codec.MethodCodec Codec.Header Codec.Frame Codec.Records
      Codec.SpecCheck Codec.Codec.
 From GMQ Require Import Codec.Grammar.
-From GMQ Require Import Codec.gen.MethodsGen Codec.gen.TagsGen Codec.gen.ConstGen Codec.gen.SpecGen.
+From GMQ Require Import Codec.gen.MethodsGen Codec.gen.TagsGen Codec.gen.ConstGen Codec.gen.SpecGen Codec.gen.RecordsGen.
 From GMQ Require Import Proofs.CodecPrimProofs Proofs.CodecValueProofs Proofs.CodecMethodProofs.
 Open Scope N_scope.
 Open Scope list_scope.
@@ -124,11 +124,24 @@ Proof. intros d h H. exact (header_roundtrip longstr_alloc rd_gen wr_gen d props
 Lemma gen_frame_roundtrip : forall f rest, wf_frame f = true -> decode_frame (encode_frame f ++ rest) = Ok (f, rest).
 Proof. intros. apply frame_roundtrip. assumption. Qed.
 
+(* Message.Marshal writes and Message.Unmarshal reads the delivery-count trailer (regenerated from amqp/types.go) *)
+Lemma gen_message_trailer : message_trailer_written = true /\ message_trailer_read = true.
+Proof. split; reflexivity. Qed.
+
 Lemma gen_message_roundtrip : forall d m, wf_message_gen d m = true ->
   exists b, encode_message d m = Some b /\ forall rest, decode_message d (b ++ rest) = Ok (m, rest).
 Proof.
-  intros d m H.
-  exact (message_roundtrip longstr_alloc frame_alloc c_FrameEnd rd_gen wr_gen d props_fields props_read props_write m gen_props_desc_wf H).
+  intros d m H. unfold wf_message_gen, encode_message, decode_message in *.
+  destruct gen_message_trailer as [Ew Er]. rewrite Er. rewrite Ew in *.
+  exact (message_roundtrip longstr_alloc frame_alloc c_FrameEnd rd_gen wr_gen d props_fields props_read props_write true m gen_props_desc_wf H).
+Qed.
+
+Lemma gen_message_legacy : forall d m, wf_message_legacy d m = true ->
+  exists b, encode_message_legacy d m = Some b /\ forall rest, blen rest < 4 -> decode_message d (b ++ rest) = Ok (m, rest).
+Proof.
+  intros d m H. unfold wf_message_legacy, encode_message_legacy, decode_message in *.
+  destruct gen_message_trailer as [_ Er]. rewrite Er.
+  exact (message_legacy_record longstr_alloc frame_alloc c_FrameEnd rd_gen wr_gen d props_fields props_read props_write m gen_props_desc_wf H).
 Qed.
 
 Lemma gen_binding_roundtrip : forall d b, wf_binding_gen d b = true ->
@@ -184,6 +197,6 @@ Proof.
   split; [exact (method_frame_nofuel longstr_alloc rd_gen d all_methods read_dispatch bs)|].
   split; [exact (header_nofuel longstr_alloc rd_gen d props_fields props_read bs)|].
   split; [exact (frame_nofuel frame_alloc c_FrameEnd bs)|].
-  split; [exact (message_nofuel longstr_alloc rd_gen frame_alloc c_FrameEnd d props_fields props_read bs)|].
+  split; [exact (message_nofuel longstr_alloc rd_gen frame_alloc c_FrameEnd d props_fields props_read message_trailer_read bs)|].
   exact (binding_nofuel longstr_alloc rd_gen d bs).
 Qed.
